@@ -48,7 +48,8 @@ def state_before(kind, phase, rec, aops, k):
 def _first_crash(job):
     """crash attempt 1 at k, then record what the recovering process does (no second fault yet)"""
     name, kind, phase, pre, work, k = job
-    d = faults.fresh(pre, work, f'dbl_{os.getpid()}_{k}')
+    import hashlib
+    d = faults.fresh(pre, work, f'dbl_{os.getpid()}_{hashlib.md5(name.encode()).hexdigest()[:8]}_{k}')
     try:
         try:
             run_forked(faults.attempt, kind, phase, None, str(d), k)
